@@ -516,11 +516,22 @@ class Table:
 
 class TransactionDecode:
     def filter(self, transactions:Iterable[str]) -> Iterable[Any]:
-        transactions = iter(filter(None,map(methodcaller('strip'),transactions)))
-        ver_row = json.loads(next(transactions))
+        transactions = self._decode(iter(filter(None,map(methodcaller('strip'),transactions))))
+        ver_row = next(transactions,["version",4]) #a log without a finished line is an empty log
         if ver_row[1] == 4:
             yield ver_row
-            yield from map(json.loads,transactions)
+            yield from transactions
+
+    def _decode(self, lines:Iterator[str]) -> Iterable[Any]:
+        #An interrupted experiment can leave a partially written last line.
+        #Nothing in it was finished so we ignore it rather than fail to read.
+        for line in lines:
+            try:
+                item = json.loads(line)
+            except json.JSONDecodeError:
+                if next(lines,None) is None: return
+                raise
+            yield item
 
 class TransactionEncode:
     def __init__(self,restored):
